@@ -6,6 +6,7 @@ import LucidModel
 import LucidModel.Safe
 import LucidModel.Gen.Consts
 import LucidModel.Gen.Langs
+import LucidModel.Gen.Unicode
 import Std.Data.HashMap
 
 open Lucid Lucid.Gen
@@ -80,6 +81,50 @@ def loadUnicode (path : String) : IO UniTables := do
       t := { t with lowerKeys := (ps.map (·.1)).toArray, lowerVals := (ps.map (·.2)).toArray }
     | _ => pure ()
   return t
+
+/-- the tables of `Gen/Unicode.lean` (the ones the `_std` theorems are about), arranged for binary search -/
+def rangesOfList (l : List (Nat × Nat)) : Ranges := { lo := (l.map (·.1)).toArray, hi := (l.map (·.2)).toArray }
+
+def genTables : UniTables :=
+  { alpha := rangesOfList Gen.uniAlpha, numeric := rangesOfList Gen.uniNumeric, white := rangesOfList Gen.uniWhite,
+    control := rangesOfList Gen.uniControl, upper := rangesOfList Gen.uniUpper,
+    lowerKeys := (Gen.uniLower.map (·.1)).toArray, lowerVals := (Gen.uniLower.map (·.2)).toArray }
+
+def UniTables.same (a b : UniTables) : Bool :=
+  a.alpha.lo == b.alpha.lo && a.alpha.hi == b.alpha.hi && a.numeric.lo == b.numeric.lo && a.numeric.hi == b.numeric.hi &&
+  a.white.lo == b.white.lo && a.white.hi == b.white.hi && a.control.lo == b.control.lo && a.control.hi == b.control.hi &&
+  a.upper.lo == b.upper.lo && a.upper.hi == b.upper.hi && a.lowerKeys == b.lowerKeys && a.lowerVals == b.lowerVals
+
+/-- does the binary-search oracle agree with `Gen.srcUnicode` (the definition the theorems use) at `c`? -/
+def agreeAt (u : Unicode) (c : Nat) : Bool :=
+  let g := Gen.srcUnicode
+  u.isAlphabetic c == g.isAlphabetic c && u.isNumeric c == g.isNumeric c && u.isWhitespace c == g.isWhitespace c &&
+  u.isControl c == g.isControl c && u.isUppercase c == g.isUppercase c && u.lower1 c == g.lower1 c
+
+/-- `--unicheck <dump>`: (1) the dump parsed at run time equals the generated tables; (2) the driver's
+    binary-search lookups equal `Gen.srcUnicode` on all code points < 0x3000, every range boundary ±1 and a
+    stride through the rest. -/
+def uniCheck (path : String) : IO UInt32 := do
+  let t ← loadUnicode path
+  let g := genTables
+  if !(t.same g) then
+    IO.println "unicheck MISMATCH: build/unicode.tbl differs from LucidModel/Gen/Unicode.lean"
+    return 1
+  let u := g.toUnicode
+  let bounds := (Gen.uniAlpha ++ Gen.uniNumeric ++ Gen.uniWhite ++ Gen.uniControl ++ Gen.uniUpper ++ Gen.uniLower).flatMap
+    (fun (a, b) => [a - 1, a, a + 1, b - 1, b, b + 1])
+  let pts := List.range 0x3000 ++ bounds ++ (List.range 4000).map (fun i => 0x3000 + i * 277)
+  let mut bad := 0
+  let mut first := 0
+  for c in pts do
+    if !(agreeAt u c) then
+      if bad = 0 then first := c
+      bad := bad + 1
+  if bad ≠ 0 then
+    IO.println s!"unicheck MISMATCH: lookup disagrees with Gen.srcUnicode at {bad} points, first {first}"
+    return 1
+  IO.println s!"unicheck ok points={pts.length}"
+  return 0
 
 /-! ## printing -/
 
@@ -306,8 +351,10 @@ partial def loop (h : IO.FS.Stream) (out : IO.FS.Stream) (st : DState) : IO Unit
 
 def main (args : List String) : IO UInt32 := do
   match args with
-  | [uniPath] =>
-    let t ← loadUnicode uniPath
+  | ["--unicheck", uniPath] => uniCheck uniPath
+  | [_uniPath] =>
+    -- the oracle is the generated table (`Gen/Unicode.lean`), the same data the `_std` theorems speak about
+    let t := genTables
     let stdin ← IO.getStdin
     let stdout ← IO.getStdout
     loop stdin stdout (newDState t.toUnicode)
